@@ -55,14 +55,33 @@ Record fcase := FCase {
   fc_impl : fdef                  (* the FunctionDefinition /repo produced *)
 }.
 
+(* the line structure of the real text, read off without Python's parser: `class <dotted name>` and `[async] def <name>`
+   header lines with the column they start in *)
+Inductive tline := TLClass (indent : nat) (name : list string) | TLDef (indent : nat) (name : string).
+
 Record mcase := MCase {
   mc_module : string;
   mc_all : list fcase;            (* every definition handed to build_module_stubs, in order (all modules) *)
   mc_modkeys : list string;       (* keys of the returned dict, in order *)
   mc_text : string;               (* ModuleStub.render() of mc_module, import block removed *)
   mc_tokens : list token;
-  mc_parse : option (list item)   (* ast.parse of the complete text; None = SyntaxError *)
+  mc_parse : option (list item);  (* ast.parse of the complete text; None = SyntaxError *)
+  mc_lines : list tline           (* header lines of the complete text, in order *)
 }.
+
+(* (enclosing class path, name) of every def line: a header line closes the classes opened at its column or deeper;
+   `class Outer.Inner:` at column 0 and `class Inner:` nested in `class Outer:` both give the path [Outer; Inner] *)
+Fixpoint text_keys (stack : list (nat * list string)) (ls : list tline) : list (list string * string) :=
+  match ls with
+  | [] => []
+  | TLClass i n :: r => text_keys ((i, n) :: filter (fun e => Nat.ltb (fst e) i) stack) r
+  | TLDef i n :: r =>
+      let st := filter (fun e => Nat.ltb (fst e) i) stack in
+      (concat (rev (map snd st)), n) :: text_keys st r
+  end.
+
+Definition key_eqb (a b : list string * string) : bool :=
+  list_eqb String.eqb (fst a) (fst b) && String.eqb (snd a) (snd b).
 
 Definition gt_has_receiver (k : fkind) : bool :=
   match k with KClass | KInstance | KProperty | KCachedProperty => true | KModule | KStatic => false end.
@@ -119,6 +138,22 @@ Definition in_module (m : string) (c : fcase) : bool := String.eqb (fd_module (f
 Definition kf_case (c : mcase) : bool :=
   existsb (fun f => Nat.leb 2 (List.length (removelast (fc_gt_qual f)))) (filter (in_module (mc_module c)) (mc_all c)).
 
+(* judged on the text alone (also when the text does not parse): every traced function has exactly one def line under
+   the header(s) of its own class path, and there is no other def line — nothing lost, nothing merged, nothing added *)
+Definition text_placed_ok (c : mcase) : bool :=
+  let mine := filter (in_module (mc_module c)) (mc_all c) in
+  let keys := text_keys [] (mc_lines c) in
+  Nat.eqb (List.length keys) (List.length mine)
+  && forallb (fun f => Nat.eqb (List.length (filter (key_eqb (gt_item_key f)) keys)) 1) mine.
+
+(* all that is wrong with the case is what the finding kf_nested_class says: a traced function of a nested class, the
+   text does not parse, but every FunctionDefinition mirrors its function and every def line sits under its own
+   (dotted) class header *)
+Definition kf_excused (c : mcase) : bool :=
+  let mine := filter (in_module (mc_module c)) (mc_all c) in
+  kf_case c && forallb fcase_prop mine && text_placed_ok c
+  && match mc_parse c with None => true | Some _ => false end.
+
 Definition verdict (c : mcase) : nat :=
   let mine := filter (in_module (mc_module c)) (mc_all c) in
   let ds := map fc_impl (mc_all c) in
@@ -144,17 +179,18 @@ Definition verdict (c : mcase) : nat :=
   let prop_ok :=
     if valid then
       forallb fcase_prop mine
+      && text_placed_ok c
       && match mc_parse c with
          | Some items => Nat.eqb (List.length items) (List.length mine) && forallb (shown_ok items) mine
          | None => false
          end
     else true in
-  if negb prop_ok then (if kf_case c && negb model_ok then 1 else 2)
+  if negb prop_ok then (if kf_excused c && negb model_ok then 1 else 2)
   else if negb model_ok then 1 else 0.
 
 Definition verdict_kf (c : mcase) : nat :=
   let v := verdict c in
-  if Nat.eqb v 0 then 0 else if kf_case c then v + 10 else v.
+  if Nat.eqb v 0 then 0 else if kf_excused c then v + 10 else v.
 
 (* ---- second stream: reparse against Python's own parser on arbitrary token sequences ---- *)
 Record gcase := GCase {
